@@ -75,13 +75,13 @@ func handleHSET(params internal.HandlerFuncParams) ([]byte, error) {
 			entries[field] = value
 		}
 	default:
-		// Handle HSET
+		// Handle HSET: every field named by the command is created or updated
+		count = len(entries)
 		for field, value := range hash {
 			if entries[field] == nil {
 				entries[field] = value
 			}
 		}
-		count = len(entries)
 	}
 
 	if err = params.SetValues(params.Context, map[string]interface{}{key: entries}); err != nil {
